@@ -34,6 +34,10 @@ def run(ctx, rep):
     from .C01 import wiresig
     wiresig(ctx, rep, ids=("rabs", "direct", "bit_region", "rans_end", "kd_points"))
     widenshift(ctx, rep)
+    from ..predsig import run_sibling_fp
+    rep.rules_text.append("SIBLING-FP: a bit / entropy coder's encoder and decoder classes that both compute in floating point use the same floating-point types (adaptive state derived on both sides must be bit-identical)")
+    n_fp = run_sibling_fp(ctx, rep, ("/draco/compression/bit_coders/", "/draco/compression/entropy/", "/draco/core/"))
+    rep.floor("encoder/decoder class pairs that both use floating point", n_fp, 1)
     for note in (prim.get("_note_dead_readers"),):
         if note:
             rep.note(note)
